@@ -146,7 +146,7 @@ fn chan_sched(a: &Args) {
   let caps: Vec<usize> = a.list("caps", "1,2").iter().map(|s| s.parse().unwrap()).collect();
   let runs = a.num("runs", 20);
   let seed = a.num("seed", 1);
-  let shapes = a.list("shapes", "drain,leave");
+  let shapes = a.list("shapes", "drain,leave,prefill");
   let strategies = a.list("strategies", "random,pct");
   let kf = a.list("kf", "");
   let out = a.get("out", "/dev/stdout");
